@@ -1,0 +1,36 @@
+//go:build !verif
+
+/*
+ * Copyright (c) 2025 The XGo Authors (xgo.dev). All rights reserved.
+ *
+ * Licensed under the Apache License, Version 2.0 (the "License");
+ * you may not use this file except in compliance with the License.
+ * You may obtain a copy of the License at
+ *
+ *     http://www.apache.org/licenses/LICENSE-2.0
+ *
+ * Unless required by applicable law or agreed to in writing, software
+ * distributed under the License is distributed on an "AS IS" BASIS,
+ * WITHOUT WARRANTIES OR CONDITIONS OF ANY KIND, either express or implied.
+ * See the License for the specific language governing permissions and
+ * limitations under the License.
+ */
+
+package matcher
+
+// Stubs of the verification hook (see verif_hook.go, build tag verif): empty and
+// inlineable, so the regular build behaves exactly as without the hook.
+
+type verifState struct{}
+
+// VerifHookActive reports whether the verification hook is compiled in.
+func VerifHookActive() bool { return false }
+
+// VerifSetBudget is a no-op without the build tag verif.
+func VerifSetBudget(steps, depth int) {}
+
+func verifStep(ctx *Context, consumed int) {}
+
+func verifEnter(ctx *Context, p *Var) {}
+
+func verifLeave(ctx *Context) {}
